@@ -15,6 +15,8 @@
 
    Part 2, HISTORIES: Save, Load through three default loading contexts and the builder (deep copy), a caller
    mutating a loaded object, over the aliasing PROFILE of a shape (which of the three classes of field it has).
+   Part 3, RE-SAVE: the wiring (steps, ports, step-port dependencies) in memory and in the database under
+   save / modify a saved workflow / save again / load; property: the load reproduces the workflow as last saved.
    The heap makes aliasing explicit, exactly as in module Persistence: a cached row holds a reference (cell) to the
    parsed nested object; a cache hit (or miss) hands out a shallow copy, i.e. the same cell, unless DeepCopy.      *)
 EXTENDS Naturals, Sequences, FiniteSets, TLC
@@ -22,7 +24,10 @@ EXTENDS Naturals, Sequences, FiniteSets, TLC
 CONSTANTS DeepCopy,     \* FALSE: cachebox default post-processing (as is); TRUE: deep copy (proposed repair)
           Family,       \* which family of shapes the generation run enumerates: "one", "pairs", "tokens", "all"
           MaxMut,       \* caller mutations per history
-          Contexts      \* loading contexts: default ones ("L1", "L2", "L3") and the builder with deep copy ("B")
+          Contexts,     \* loading contexts: default ones ("L1", "L2", "L3") and the builder with deep copy ("B")
+          ResaveEdges,  \* Part 3: TRUE: Step.save (re)declares the step's dependency rows on EVERY save (the code as it is);
+                        \*         FALSE: only a step that is being inserted writes them (defect model)
+          MaxOps        \* Part 3: modifications of the in-memory workflow per history
 
 VARIABLES shape,     \* generation runs: the shape; exhaustive runs: "none"
           profile,   \* set of field classes the workflow has
@@ -32,7 +37,17 @@ VARIABLES shape,     \* generation runs: the shape; exhaustive runs: "none"
           heap,      \* cell -> "orig" | "mut"
           loadok,    \* context -> the load reproduced the saved workflow (evaluated when the load happened)
           muts       \* set of <<context, class>>: what callers changed in their own copies
-vars == <<shape, profile, saved, rowcell, loads, heap, loadok, muts>>
+hvars == <<shape, profile, saved, rowcell, loads, heap, loadok, muts>>
+\* Part 3 (save / modify / save again / load): the wiring of the workflow in memory and in the database
+VARIABLES mem,        \* [steps, ports, edges]: the Workflow object; an edge is <<step, port, "in"|"out">>
+          db,         \* [steps, ports, edges]: rows of the step / port / dependency tables
+          lastsaved,  \* mem as it was at the last Workflow.save (NoGraph before the first)
+          nops,       \* modifications so far
+          late,       \* edges / ports that were added when their step / the workflow was already in the database
+                      \* (history variable: keeps apart histories that end in the same rows but re-saved different things)
+          reload      \* [ctx, ok]: the last load (ctx "none": none since the last change) and whether it reproduced the workflow as last saved
+gvars == <<mem, db, lastsaved, nops, late, reload>>
+vars == <<shape, profile, saved, rowcell, loads, heap, loadok, muts, mem, db, lastsaved, nops, late, reload>>
 
 ---------------------------------------------------------------------------
 (* Part 1: shapes *)
@@ -140,10 +155,18 @@ NewCell(h) == CHOOSE n \in 1..(Cardinality(DOMAIN h) + 1) : n \notin DOMAIN h
 
 InitHist == /\ saved = FALSE /\ rowcell = [k \in Classes |-> 0] /\ loads = <<>> /\ heap = <<>>
             /\ loadok = <<>> /\ muts = {}
-Init == shape = "none" /\ profile \in (SUBSET Classes) \ {{}} /\ InitHist
+GSteps == {"s1", "s2"}
+GPorts == {"p1", "p2", "p3"}
+EmptyGraph == [steps |-> {}, ports |-> {}, edges |-> {}]
+NoGraph == [steps |-> {"-"}, ports |-> {}, edges |-> {}]        \* "never saved"
+NoLoad == [ctx |-> "none", ok |-> TRUE]
+InitGraphN(n) == /\ mem = [steps |-> {"s1"}, ports |-> {"p1", "p2"}, edges |-> {<<"s1", "p1", "in">>, <<"s1", "p2", "out">>}]
+                 /\ db = EmptyGraph /\ lastsaved = NoGraph /\ nops = n /\ late = {} /\ reload = NoLoad
+InitGraph == InitGraphN(0)
+Init == shape = "none" /\ profile \in (SUBSET Classes) \ {{}} /\ InitHist /\ InitGraph
 
 Save == /\ ~saved /\ saved' = TRUE
-        /\ UNCHANGED <<shape, profile, rowcell, loads, heap, loadok, muts>>
+        /\ UNCHANGED <<shape, profile, rowcell, loads, heap, loadok, muts>> /\ UNCHANGED gvars
 
 \* one class of field of one load: returns [h, rc, cell]: new heap, new cached-row cell, the cell the object keeps
 LoadClass(k, h, rc) ==
@@ -170,18 +193,64 @@ Load(c) ==
         /\ rowcell' = [k \in Classes |-> CASE k = "shared" -> a.rc [] k = "copied" -> b.rc [] OTHER -> 0]
         /\ loads' = (c :> [cells |-> cells, ids |-> (c # "B")]) @@ loads
         /\ loadok' = (c :> (\A k \in profile : f.h[cells[k]] = "orig")) @@ loadok
-  /\ UNCHANGED <<shape, profile, saved, muts>>
+  /\ UNCHANGED <<shape, profile, saved, muts>> /\ UNCHANGED gvars
 
 MutateLoaded(c, k) ==
   /\ c \in DOMAIN loads /\ k \in profile /\ Cardinality(muts) < MaxMut /\ <<c, k>> \notin muts
   /\ heap' = [heap EXCEPT ![loads[c].cells[k]] = "mut"]
   /\ muts' = muts \cup {<<c, k>>}
-  /\ UNCHANGED <<shape, profile, saved, rowcell, loads, loadok>>
+  /\ UNCHANGED <<shape, profile, saved, rowcell, loads, loadok>> /\ UNCHANGED gvars
 
 Next == \/ Save
         \/ \E c \in Ctx : Load(c)
         \/ \E c \in Ctx, k \in Classes : MutateLoaded(c, k)
 Spec == Init /\ [][Next]_vars
+
+---------------------------------------------------------------------------
+(* Part 3: save, modify the saved workflow, save again, load.
+   Workflow.save is re-entrant: it skips the workflow row when it exists and then saves every port and every step.
+   Port.save inserts a port that has no id.  Step.save inserts the step row when the step has no id and then
+   declares ALL its step-port dependencies (INSERT OR IGNORE) - on every call, because the wiring lives in its own
+   table and may have grown since the step row was written.  Step.load rebuilds input_ports / output_ports from that
+   table only.  Nothing is ever deleted (modifications are additions: the API only adds).                         *)
+InitRe == shape = "none" /\ profile = {"fresh"} /\ InitHist /\ InitGraph
+
+Modify(m, l) == /\ nops < MaxOps /\ m # mem /\ mem' = m /\ nops' = nops + 1 /\ reload' = NoLoad
+                /\ late' = late \cup l
+                /\ UNCHANGED <<db, lastsaved>> /\ UNCHANGED hvars
+\* workflow.create_port()
+AddPort(p) == p \notin mem.ports /\ Modify([mem EXCEPT !.ports = @ \cup {p}], IF lastsaved # NoGraph THEN {<<"port", p, "-", "-">>} ELSE {})
+\* step.add_input_port / add_output_port on a step of the workflow (a port that is not yet in workflow.ports is registered)
+\* (assumption: a port is not both an input and an output of the same step - the dependency table is keyed by (step, port))
+AddWire(st, p, d) == /\ st \in mem.steps /\ \A d2 \in {"in", "out"} : <<st, p, d2>> \notin mem.edges
+                     /\ Modify([mem EXCEPT !.ports = @ \cup {p}, !.edges = @ \cup {<<st, p, d>>}],
+                               IF st \in db.steps THEN {<<"edge", st, p, d>>} ELSE {})
+\* workflow.create_step(...) consuming an existing port
+AddStep(st, p) == /\ st \notin mem.steps /\ p \in mem.ports
+                  /\ Modify([mem EXCEPT !.steps = @ \cup {st}, !.edges = @ \cup {<<st, p, "in">>}],
+                            IF lastsaved # NoGraph THEN {<<"step", st, "-", "-">>} ELSE {})
+
+SaveWf == /\ LET newsteps == mem.steps \ db.steps
+             IN db' = [steps |-> db.steps \cup mem.steps, ports |-> db.ports \cup mem.ports,
+                       edges |-> db.edges \cup {e \in mem.edges : ResaveEdges \/ e[1] \in newsteps}]
+          /\ lastsaved' = mem /\ lastsaved # mem /\ reload' = NoLoad
+          /\ UNCHANGED <<mem, nops, late>> /\ UNCHANGED hvars
+
+\* load through a default context ("L") or the builder's deep copy ("B"): both rebuild the graph from the rows
+LoadWf(c) == /\ lastsaved # NoGraph /\ reload.ctx # c
+             /\ reload' = [ctx |-> c, ok |-> (db = lastsaved)]
+             /\ UNCHANGED <<mem, db, lastsaved, nops, late>> /\ UNCHANGED hvars
+
+NextRe == \/ \E p \in GPorts : AddPort(p)
+          \/ \E st \in GSteps, p \in GPorts, d \in {"in", "out"} : AddWire(st, p, d)
+          \/ \E st \in GSteps, p \in GPorts : AddStep(st, p)
+          \/ SaveWf
+          \/ \E c \in {"L", "B"} : LoadWf(c)
+
+\* the load reproduces the workflow as last saved
+LoadReproducesLastSaved == reload.ok
+GraphTypeOK == /\ mem.steps \subseteq GSteps /\ mem.ports \subseteq GPorts /\ db.steps \subseteq mem.steps /\ db.ports \subseteq mem.ports
+               /\ \A e \in mem.edges \cup db.edges : e[1] \in mem.steps /\ e[2] \in mem.ports
 
 ---------------------------------------------------------------------------
 (* Properties (statement of C08) *)
